@@ -56,6 +56,11 @@ pub struct WorldSpec {
     /// host name of the lock server in the configuration (default 127.0.0.1)
     #[serde(default)]
     pub lock_host: Option<String>,
+    /// the configuration relies on the documented default ports: 1 = `server.lock` and `server.log` are
+    /// present without `port`, 2 = no `server` section at all. The world then maps 5917/5918 onto its own
+    /// reserved pair at the socket-call boundary (shim), so that many such worlds can run at once.
+    #[serde(default)]
+    pub default_ports: u8,
 }
 
 impl WorldSpec {
@@ -103,6 +108,15 @@ impl WorldSpec {
                 "log": {"host": "127.0.0.1", "port": log_port, "bind_timeout_ms": 1000}
             }
         });
+        match self.default_ports {
+            1 => {
+                cfg["server"] = serde_json::json!({ "lock": {"bind_timeout_ms": 1000}, "log": {"bind_timeout_ms": 1000} });
+            }
+            2 => {
+                cfg.as_object_mut().unwrap().remove("server");
+            }
+            _ => {}
+        }
         if !self.sequences.is_empty() {
             let mut s = serde_json::Map::new();
             for (k, v) in &self.sequences {
@@ -364,6 +378,10 @@ impl World {
         self.base_env(&mut cmd);
         for (k, v) in &self.knobs {
             cmd.env(k, v);
+        }
+        if self.spec.default_ports != 0 {
+            cmd.env("LD_PRELOAD", shim_path());
+            cmd.env("FSFAULT_PORTMAP", format!("5917:{},5918:{}", self.ports.lock, self.ports.log));
         }
         cmd.arg("-f").arg(self.root.join(&self.config_name));
         cmd.args(args);
